@@ -35,6 +35,16 @@ fixed("F12", "C03", "combine_latest behaved as zip: cold<0 C>.combine_latest([co
 fixed("F13", "C14", "concat: the second subscriber only got the first source (queue of pending sources shared between subscriptions)", "regress/C14-concat-second-subscription.json", "fix: concat can be subscribed")
 fixed("F14", "C14", "default_if_empty: 'has emitted' flag shared between subscriptions (nested subscriber of an empty run got no default)", "regress/C14-default_if_empty-shared-flag.json", "fix: default_if_empty keeps")
 fixed("F15", "C03", "sequence_equal answered true when one sequence was a proper prefix of the other", "regress/C03-sequence_equal-different-length.json", "fix: sequence_equal reports false")
+fixed("F16", "C07", "ref_count/replay over a synchronous source whose only subscriber ends at once (error(1).ref_count(), from_iter.ref_count().take(1)): self-deadlock (source subscribed under the write lock the disconnect hook takes)", "regress/C07-ref_count-self-deadlock-sync-error.json", "fix: ref_count and replay reconnect")
+fixed("F16b", "C07", "cold<0 C>.ref_count().take(0): same self-deadlock", "regress/C07-ref_count-self-deadlock-take0.json", "fix: ref_count and replay reconnect")
+fixed("F17", "C13", "cold<0>.replay(): the first subscriber received the synchronous source's items twice", "regress/C13-replay-sync-source-duplicates.json", "fix: replay() does not deliver")
+fixed("F18", "C07", "emitting a terminal into a BehaviorSubject from inside its hand-over callback: self-deadlock (hand-over under the read locks of the stored state)", "regress/C07-behavior-reentrant-complete-in-handover.json", "fix: Behavior/ReplaySubject hand the stored state")
+fixed("F19", "C07", "hot0.scan(+): re-entrant emission from the subscriber's callback self-deadlocked (accumulator read lock held across the downstream call)", "regress/C07-scan-reentrant-emission.json", "fix: scan emits with no lock held")
+fixed("F20", "C07", "window_with_count: re-entrant emission self-deadlocked (counter write lock held across the calls)", "regress/C07-window-reentrant-emission.json", "fix: window_with_count calls its subscribers")
+fixed("F21", "C15", "cold<0 C>.timeout(10): the timer armed after the last item outlived the completion by two periods", "regress/C15-timeout-timer-outlives-completion.json", "fix: timeout cancels its pending timer")
+fixed("F22", "C15", "x.observe_on(new_thread) subscribed on behalf of an observer that had already ended: the scheduler thread was never aborted (introduced by the fix 'do not build teardown cycles', which stopped the late emission that used to trigger finalize; probe fails on the parent commit of this fix)", "regress/C15-observe_on-for-ended-observer-leaks-thread.json", "fix: an on_finalize action registered after")
+fixed("F23", "C15", "finalize racing new_observer (subscribe_on worker subscribing an interval while the downstream errors on another thread): the upstream stayed subscribed until its next item (the race is in the original tree; this probe's schedule reproduces it on the parent commit of the fix)", "regress/C15-finalize-vs-new_observer-race.json", "fix: an upstream registered while the stream is being finalized")
+fixed("F24", "C15", "timeout armed a timer while the stream was ending on another thread and never cancelled it", "regress/C15-timeout-arms-timer-while-finalizing.json", "fix: timeout cancels a timer it armed")
 import os, sys
 extra = os.path.join(os.path.dirname(__file__), 'known_extra.py')
 if os.path.exists(extra):
